@@ -141,7 +141,9 @@ theorem finalize_shape (ft : FloatText) (e e' : EW) (tr : String → Option Stri
   · cases h
   · split at h
     · cases h
-    · rename_i xml0 hs _ xml ht
+    split at h
+    · cases h
+    · rename_i xml0 hs _ _ xml ht
       change ite _ _ _ = _ at h
       split at h
       · cases h
@@ -1115,9 +1117,12 @@ open LayoutEx
 
 /-- **non-vacuity**: the concrete session `LayoutEx` (3 records, 2 points, section header straddling
     the page boundary at 1020), closed by `EW.finalize` with a transformer that replaces the XML by
-    `"x"`: `FinalFile` and `SectionLayout` hold, so `finalized_pages_valid`, `finalized_header_decoded`
+    `"x"` (hypothesis: the float texts `ft` prints are made of characters XML can carry, so that `finalize` does not
+    refuse the document): `FinalFile` and `SectionLayout` hold, so `finalized_pages_valid`, `finalized_header_decoded`
     and `cloud_in_closed_file` apply; in particular the decoder's packet walk succeeds on the file. -/
-theorem final_instance (ft : FloatText) :
+theorem final_instance (ft : FloatText)
+    (hchars : ∀ pw2 pc, LayoutEx.run = some (pw2, pc) → ∀ x,
+      serializeRoot ft { guid := "g" } [pc] [] [] = some x → x.toList.all xmlChar = true) :
     ∃ (e e' : EW) (pw2 : PW) (pc : PointCloud),
       FinalFile ft e e' (fun _ => some "x") ∧ e.pw = pw2 ∧
       SectionLayout base pw2 pc "g" proto pts (emitted base [] "g" proto pts) ∧
@@ -1145,7 +1150,7 @@ theorem final_instance (ft : FloatText) :
     rw [if_neg (show ¬ ("g".isEmpty = true) by decide)]
     exact ⟨_, rfl⟩
   obtain ⟨x, hx⟩ := hser
-  obtain ⟨e', hfin⟩ := BlobRT.finalize_ok ft e (fun _ => some "x") L.inv x "x" hx rfl
+  obtain ⟨e', hfin⟩ := BlobRT.finalize_ok ft e (fun _ => some "x") L.inv x "x" hx (hchars pw2 pc hrun x hx) rfl
     (by decide +kernel)
   have h48 : 48 ≤ e.pw.abs.cur := by
     show 48 ≤ pw2.abs.cur; rw [L.cursor, hcur]; omega
@@ -1376,6 +1381,18 @@ theorem closed_length (s : LogStream) (X : Bytes) :
   rw [spec_write_length _ _ (Nat.zero_le _), RoundTrip.fileHeader_length]
   simp only []
 
+set_option maxRecDepth 100000 in
+/-- the document of an otherwise empty file with GUID "g" consists of characters XML can carry (evaluated) -/
+theorem gDoc_chars_all :
+    (serializeRoot (⟨[], []⟩ : FloatText) { guid := "g" } [] [] []).all (fun x => x.toList.all xmlChar) = true := by
+  decide +kernel
+
+theorem gDoc_chars (x : String) (hx : serializeRoot (⟨[], []⟩ : FloatText) { guid := "g" } [] [] [] = some x) :
+    x.toList.all xmlChar = true := by
+  have h := gDoc_chars_all
+  rw [hx] at h
+  exact h
+
 /-- `finalized_header_decoded` without `48 ≤ cursor`: "the header states the true file length" -/
 def finalized_header_statement : Prop :=
   ∀ (ft : FloatText) (e e' : EW) (tr : String → Option String), e.pw.Inv →
@@ -1397,7 +1414,7 @@ theorem finalized_header_statement_false : ¬ finalized_header_statement := by
     rw [if_neg (show ¬ ("g".isEmpty = true) by decide)]
     exact ⟨_, rfl⟩
   obtain ⟨x, hx⟩ := hser
-  obtain ⟨e', hfin⟩ := BlobRT.finalize_ok ⟨[], []⟩ e (fun _ => some "") hinv x "" hx rfl
+  obtain ⟨e', hfin⟩ := BlobRT.finalize_ok ⟨[], []⟩ e (fun _ => some "") hinv x "" hx (gDoc_chars x hx) rfl
     (by decide +kernel)
   obtain ⟨xml0, xml, _, ht, inv', a, dv⟩ := finalize_shape _ e e' _ hinv hfin
   injection ht with ht
@@ -1454,7 +1471,7 @@ theorem xml_offset_statement_false : ¬ xml_offset_statement := by
     rw [if_neg (show ¬ ("g".isEmpty = true) by decide)]
     exact ⟨_, rfl⟩
   obtain ⟨x, hx⟩ := hser
-  obtain ⟨e', hfin⟩ := BlobRT.finalize_ok ⟨[], []⟩ e (fun _ => some "") hinv x "" hx rfl
+  obtain ⟨e', hfin⟩ := BlobRT.finalize_ok ⟨[], []⟩ e (fun _ => some "") hinv x "" hx (gDoc_chars x hx) rfl
     (by decide +kernel)
   have h := hst _ e e' _ hinv (by show 48 ≤ P.abs.cur; omega) hfin
   obtain ⟨xml0, xml, _, ht, inv', a, dv⟩ := finalize_shape _ e e' _ hinv hfin
